@@ -21,3 +21,16 @@ TWINS = [
     T("concat-instead-of-fstring", F, 'return f"\\\\overline{{{content_text}}}"', 'return "\\\\overline{" + content_text + "}"'),
     T("inline-find", F, '            content = elem.find(f"{M_NS}e")\n            content_text = process_element(content)\n            return f"\\\\overline{{{content_text}}}"', '            content_text = process_element(elem.find(f"{M_NS}e"))\n            return f"\\\\overline{{{content_text}}}"'),
 ]
+
+# --- seeded changes kept under /verif/seeded (sub-agents saw only the property text); each must be reported by the named rule
+import os as _os
+from sa.selftest.harness import P as _P
+_SEEDS = _os.path.join(_os.path.dirname(_os.path.dirname(_os.path.dirname(_os.path.abspath(__file__)))), "seeded")
+SEEDED = [
+    ("C19-1", "C19-LIN"),
+    ("C19-2", "C19-BAL"),
+    ("C19-3", "C19-TOTAL"),
+    ("C19-4", "C19-NULL"),
+    ("C19-5", "C19-LIN"),
+]
+MUTANTS = list(MUTANTS) + [_P("seed-" + sid, _os.path.join(_SEEDS, sid, "patch.diff"), rule) for sid, rule in SEEDED if _os.path.exists(_os.path.join(_SEEDS, sid, "patch.diff"))]
